@@ -154,7 +154,9 @@ func (ctx *BrokerContext) AddSnowflake(id string, proxyType string, natType stri
 	snowflake.proxyType = proxyType
 	snowflake.natType = natType
 	snowflake.offerChannel = make(chan *ClientOffer)
-	snowflake.answerChannel = make(chan string)
+	// Buffered, so that a proxy answer arriving after the client has timed
+	// out (or before the client starts waiting) never blocks the sender.
+	snowflake.answerChannel = make(chan string, 1)
 	ctx.snowflakeLock.Lock()
 	if natType == NATUnrestricted {
 		heap.Push(ctx.snowflakes, snowflake)
